@@ -84,6 +84,9 @@ def main():
                 axis=3, kind='zero')
         if quantile == 1:
             x[:, :, :, i] = ens[:, :, :, -1]
+        elif M == 1:
+            # A single member cannot be interpolated: every quantile is that member
+            x[:, :, :, i] = ens[:, :, :, 0]
         else:
             x[:, :, :, i] = f(quantile)
 
